@@ -294,6 +294,20 @@ def build_tree(name):
     if name == 'select_built':
         return A.Select(targets=[A.Identifier('a'), A.Constant(1, alias=A.Identifier('one'))], from_table=A.Identifier('db.tbl'),
                         where=A.BinaryOperation('=', args=[A.Identifier('b'), A.Constant('x')]), limit=A.Constant(3))
+    if name.startswith('chain_'):
+        # chain_<and|or>_<n>_<plain|join|pred>: a long condition list built by the caller (a BI tool's filter turned into a tree
+        # without going through the parser): left-deep, as deep as it is long
+        _, bop, n, shape = name.split('_')
+        cond = None
+        for i in range(int(n)):
+            c = A.BinaryOperation('=', args=[A.Identifier('t1.c%d' % i), A.Constant(i)])
+            cond = c if cond is None else A.BinaryOperation(bop, args=[cond, c])
+        t1 = A.Identifier('int.tab1', alias=A.Identifier('t1'))
+        if shape == 'plain':
+            return A.Select(targets=[A.Star()], from_table=t1, where=cond)
+        right = A.Identifier('int2.tab2', alias=A.Identifier('t2')) if shape == 'join' else A.Identifier('mindsdb.pred', alias=A.Identifier('m'))
+        kw = {'condition': A.BinaryOperation('=', args=[A.Identifier('t1.a'), A.Identifier('t2.a')])} if shape == 'join' else {}
+        return A.Select(targets=[A.Star()], from_table=A.Join(left=t1, right=right, join_type='join', **kw), where=cond)
     raise ValueError(name)
 
 
@@ -316,7 +330,7 @@ def run_op(op, env):
         if k == 'plan':
             from mindsdb_sql import parse_sql
             from mindsdb_sql.planner import plan_query
-            ast = parse_sql(op['sql'], dialect=op.get('d', 'mindsdb'))
+            ast = build_tree(op['ast']) if op.get('ast') else parse_sql(op['sql'], dialect=op.get('d', 'mindsdb'))
             plan = plan_query(ast, **plan_kwargs(env.catalog(op.get('cat'))))
             return 'ok: ' + dump_steps(plan.steps)
         if k == 'render':
